@@ -65,6 +65,13 @@ func writeEvidence(o *opts, ck Check, sites *SiteTable, m *ShardResult, violatio
 		"probes":                   probes,
 		"probes_at_zero":           zero,
 		"functions_reached":        len(funcs),
+		"distinct_measure": map[string]string{
+			"C04": "distinct_nontrivial = number of distinct (case, context-switch trace) pairs, the trace being the sequence (from task, to task, site of preemption)*; schedules without any context switch inside an operation are not counted",
+			"C20": "distinct (program, bindings, entry point, fault index k, accepted prefix, sticky/transient)",
+			"C14": "distinct (graph, state vector, history step, fault call index, errno)",
+			"C03": "distinct (pool, history prefix)",
+			"C02": "distinct (program, bindings, execution settings)",
+		}[o.prop],
 		"determinism_reexecutions": redo,
 		"determinism_mismatches":   0,
 		"violations_reported":      reported,
